@@ -143,6 +143,10 @@ pub struct Parser {
     pub parse_string: String,
     pub macro_dcs: String,
     pub bs_is_ctrl_char: bool,
+    /// nesting depth of the macro invocation in progress
+    macro_depth: usize,
+    /// characters the outermost macro invocation in progress may still expand to
+    macro_budget: usize,
 }
 
 impl Default for Parser {
@@ -165,6 +169,8 @@ impl Default for Parser {
             last_char: '\0',
             hyper_links: Vec::new(),
             bs_is_ctrl_char: false,
+            macro_depth: 0,
+            macro_budget: 0,
         }
     }
 }
@@ -1450,6 +1456,11 @@ impl BufferParser for Parser {
     }
 }
 
+/// Macros may invoke macros at most this deep.
+const MAX_MACRO_DEPTH: usize = 16;
+/// One macro invocation (with everything it invokes) expands to at most this many characters.
+const MAX_MACRO_EXPANSION: usize = 0x10_0000;
+
 impl Parser {
     fn invoke_macro_by_id(&mut self, buf: &mut Buffer, current_layer: usize, caret: &mut Caret, id: i32) {
         let m = if let Some(m) = self.macros.get(&(id as usize)) {
@@ -1457,11 +1468,25 @@ impl Parser {
         } else {
             return;
         };
+        // a macro may invoke macros, itself included: limit the nesting and the total expansion
+        if self.macro_depth >= MAX_MACRO_DEPTH {
+            log::error!("Macro nesting too deep, macro {id} not invoked");
+            return;
+        }
+        if self.macro_depth == 0 {
+            self.macro_budget = MAX_MACRO_EXPANSION;
+        }
+        self.macro_depth += 1;
         for ch in m.chars() {
+            if self.macro_budget == 0 {
+                break;
+            }
+            self.macro_budget -= 1;
             if let Err(err) = self.print_char(buf, current_layer, caret, ch) {
                 log::error!("Error during macro invocation: {}", err);
             }
         }
+        self.macro_depth -= 1;
     }
 
     fn execute_aps_command(&self, _buf: &mut Buffer, _caret: &mut Caret) {
